@@ -3,6 +3,8 @@ import SlotVerif.Proofs.ListAux
 import SlotVerif.Proofs.Shape
 import SlotVerif.Proofs.ShapeIdem
 import SlotVerif.Proofs.Syntax
+import SlotVerif.Proofs.ShapeDecode
+import SlotVerif.Proofs.ShapeApply
 /-!
 # C16 — Node shapes are canonical modulo renaming; derived Language impls are coherent
 
@@ -14,8 +16,18 @@ argument over the weak-shape state (`Proofs/Shape.lean`).  So free renaming and 
 binders both leave the shape — the hashcons key — unchanged.  `weakShape_idem`: **the shape of a shape is the shape itself**
 (`Proofs/ShapeIdem.lean`).  `fromSyntax_toSyntax` / `fromSyntax_toSyntax_payload`: **`from_syntax(to_syntax(n)) = n`** for
 every well-typed node of every signature (`Proofs/Syntax.lean`; the generated first-fitting-prefix loop
-finds exactly each field's own syntax).  `weakShape_apply` and the converse of `weakShape_rename` are listed as pending in the evidence and are covered by the
-correspondence check and the harness-side predicates only.
+finds exactly each field's own syntax).  `node_decode`: **nothing but names is lost** — every node is its shape with
+the shape's numbers renamed back to the names that received them (the total form of "applying the bijection to
+the shape gives back the node": free *and* bound names; `Proofs/ShapeDecode.lean`).  Hence the converse of
+`weakShape_rename`, `shape_eq_imp_renamed`: **two nodes with the same shape differ only by a renaming of their
+occurrences**, injective whenever neither node uses one name for two different variables (`Hygienic`, decidable per
+node; `shape_eq_iff_renamed`).  For non-hygienic nodes (a name bound twice, or bound and free) the two nodes are still
+both renamings of the one shape (`same_shape_common_skeleton`), but no single renaming maps one to the other.
+`weakShape_apply`: **applying the returned bijection to the shape** never fails and renames exactly the public
+numbers back to the node's own free names, leaving binders as numbered (`apply_eq`); when no free name of the node
+is a number its shape uses for a binder (`NoCapture` — decidable; its failure is the known finding F9, kernel-checked
+below) the result has the shape of the original node, i.e. it *is* the node up to bound names
+(`Proofs/ShapeApply.lean`: simulation over the weak-shape state with the frame lemmas of `ShapeIdem`).
 -/
 namespace SV.Node.C16
 open SV
@@ -188,6 +200,100 @@ example : Shape.InjOn (fun x => x + 100) (Node.allOcc exNode) := by
   intro a _ b _ h; simpa using h
 
 
+/-! ### nothing but names is lost; the converse of `weakShape_rename` -/
+
+theorem allOcc_rename (ρ : Nat → Nat) (n : Node) : Node.allOcc (Node.rename ρ n) = (Node.allOcc n).map ρ := by
+  unfold Node.allOcc Node.rename
+  simp only
+  induction n.fields with
+  | nil => rfl
+  | cons f t ih => simp only [List.map_cons, List.flatMap_cons, List.map_append, ShapeDecode.allOcc_rename, ih]
+
+theorem rename_rename (ρ σ : Nat → Nat) (n : Node) : Node.rename σ (Node.rename ρ n) = Node.rename (fun x => σ (ρ x)) n := by
+  unfold Node.rename
+  simp only [List.map_map]
+  congr 1
+  apply List.map_congr_left
+  intro f _
+  exact ShapeDecode.rename_rename ρ σ f
+
+theorem rename_congr {ρ ρ' : Nat → Nat} (n : Node) (h : ∀ x ∈ Node.allOcc n, ρ x = ρ' x) :
+    Node.rename ρ n = Node.rename ρ' n := by
+  unfold Node.rename
+  congr 1
+  apply List.map_congr_left
+  intro f hf
+  apply ShapeDecode.rename_congr
+  intro x hx
+  exact h x (by simp only [Node.allOcc, List.mem_flatMap]; exact ⟨f, hf, hx⟩)
+
+/-- **every node is its shape with the numbers renamed back** (`namesOf n` lists, per shape number, the name it replaced) -/
+theorem node_decode (n : Node) :
+    Node.rename (ShapeDecode.decode (ShapeDecode.namesOf n)) (Node.weakShape n).1 = n :=
+  ShapeDecode.node_decode n
+
+/-- two nodes with the same shape are renamings of one common skeleton -/
+theorem same_shape_common_skeleton (n m : Node) (h : (Node.weakShape n).1 = (Node.weakShape m).1) :
+    ∃ sh dn dm, n = Node.rename dn sh ∧ m = Node.rename dm sh :=
+  ⟨(Node.weakShape n).1, _, _, (node_decode n).symm, by rw [h]; exact (node_decode m).symm⟩
+
+/-- no name of the node stands for two different variables (a name bound by two binders, or bound and also free):
+decoding is injective on the occurrences of the shape -/
+def Hygienic (n : Node) : Prop :=
+  Shape.InjOn (ShapeDecode.decode (ShapeDecode.namesOf n)) (Node.allOcc (Node.weakShape n).1)
+
+instance (n : Node) : Decidable (Hygienic n) := by unfold Hygienic Shape.InjOn; infer_instance
+
+/-- **equal shapes ⇒ equal up to renaming**: the converse of `weakShape_rename` -/
+theorem shape_eq_imp_renamed (n m : Node) (h : (Node.weakShape n).1 = (Node.weakShape m).1) (hn : Hygienic n) :
+    ∃ ρ, m = Node.rename ρ n ∧ (Hygienic m → Shape.InjOn ρ (Node.allOcc n)) := by
+  let sh := (Node.weakShape n).1
+  let dn := ShapeDecode.decode (ShapeDecode.namesOf n)
+  let dm := ShapeDecode.decode (ShapeDecode.namesOf m)
+  let ρ : Nat → Nat := fun x => match (Node.allOcc sh).find? (fun c => dn c == x) with
+    | some c => dm c
+    | none => x
+  have hn' : Node.rename dn sh = n := node_decode n
+  have hm' : Node.rename dm sh = m := by have := node_decode m; rw [← h] at this; exact this
+  have hρ : ∀ c ∈ Node.allOcc sh, ρ (dn c) = dm c := by
+    intro c hc
+    simp only [ρ]
+    cases hf : (Node.allOcc sh).find? (fun c' => dn c' == dn c) with
+    | none =>
+      have := List.find?_eq_none.mp hf c hc
+      simp at this
+    | some c' =>
+      have h1 : dn c' = dn c := by simpa using List.find?_some hf
+      have h2 : c' ∈ Node.allOcc sh := List.mem_of_find?_eq_some hf
+      rw [hn c' h2 c hc h1]
+  refine ⟨ρ, ?_, ?_⟩
+  · rw [← hm', ← hn', rename_rename]
+    exact (rename_congr sh hρ).symm
+  · intro hmh a ha b hb hab
+    rw [← hn', allOcc_rename] at ha hb
+    obtain ⟨c1, hc1, rfl⟩ := List.mem_map.mp ha
+    obtain ⟨c2, hc2, rfl⟩ := List.mem_map.mp hb
+    rw [hρ c1 hc1, hρ c2 hc2] at hab
+    have hmh' : Shape.InjOn dm (Node.allOcc sh) := by
+      have := hmh; unfold Hygienic at this; rw [← h] at this; exact this
+    rw [hmh' c1 hc1 c2 hc2 hab]
+
+/-- **two hygienic nodes have equal shapes exactly when they differ by an injective renaming of their occurrences** -/
+theorem shape_eq_iff_renamed (n m : Node) (hn : Hygienic n) (hm : Hygienic m) :
+    (Node.weakShape m).1 = (Node.weakShape n).1 ↔ ∃ ρ, Shape.InjOn ρ (Node.allOcc n) ∧ m = Node.rename ρ n := by
+  constructor
+  · intro h
+    obtain ⟨ρ, h1, h2⟩ := shape_eq_imp_renamed n m h.symm hn
+    exact ⟨ρ, h2 hm, h1⟩
+  · rintro ⟨ρ, hρ, rfl⟩
+    exact weakShape_rename n ρ hρ
+
+/-- non-vacuity: `exNode` is hygienic; a node that binds `8` and also uses it free is not, and is still decoded -/
+example : Hygienic exNode := by decide
+example : ¬ Hygienic { v := 0, fields := [.slot 8, .bind 8 (.slot 8)] } := by decide
+example : ShapeDecode.namesOf { v := 0, fields := [.slot 8, .bind 8 (.slot 8)] } = [8, 8] := by decide
+
+
 /-- **The shape of a shape is itself** (`sh.weak_shape().0 == sh` for every `sh = n.weak_shape().0`), for all
 nodes of all languages, including binders that shadow an enclosing slot name. -/
 theorem weakShape_idem (n : Node) : (Node.weakShape (Node.weakShape n).1).1 = (Node.weakShape n).1 := by
@@ -204,6 +310,32 @@ example : (Node.weakShape exShadow).1 =
     { v := 0, fields := [.slot 0, .bind 4 (.app { id := 3, m := [(0, 4), (4, 8)] }), .slot 0] } := by decide
 example : (Node.weakShape (Node.weakShape exShadow).1).1 = (Node.weakShape exShadow).1 := by decide
 
+
+/-! ### applying the returned bijection -/
+
+/-- **applying the bijection to the shape gives back the node up to bound names.**  The call succeeds for every node;
+the result is the shape with every public number renamed to the free name of `n` it replaced and every binder (and
+the occurrences it binds) left as numbered; and, when no free name collides with a binder number, its shape is the
+shape of `n` and its free slots are those of `n` in the same order. -/
+theorem weakShape_apply (n : Node) :
+    ∃ n', Node.applySlotmap (Node.weakShape n).1 (Node.weakShape n).2 = some n' ∧
+      n' = Node.rename (ShapeApply.back n) (Node.weakShape n).1 ∧
+      (∀ x ∈ Node.publicOcc (Node.weakShape n).1, ShapeApply.back n x = ShapeDecode.decode (ShapeDecode.namesOf n) x) ∧
+      (∀ b ∈ ShapeApply.bindersN (Node.weakShape n).1, ShapeApply.back n b = b) ∧
+      (ShapeApply.NoCapture n → (Node.weakShape n').1 = (Node.weakShape n).1) := by
+  refine ⟨_, ShapeApply.apply_eq n, rfl, ShapeApply.back_public n, ShapeApply.back_binder n, ?_⟩
+  intro hnc
+  rw [weakShape_rename _ _ (ShapeApply.back_injOn n hnc)]
+  exact weakShape_idem n
+
+/-- non-vacuity, and the capture of finding F9 as a kernel-checked fact: `lam $8. f($8, $12)` meets `NoCapture`;
+`lam $8. c($8, $0)` — the free numeric slot `$0` is the number the shape gives the binder — does not, and applying the
+bijection captures it: the result has a different shape -/
+example : ShapeApply.NoCapture exNode := by decide
+example : ¬ ShapeApply.NoCapture { v := 0, fields := [.bind 8 (.app ⟨3, [(0, 8), (4, 0)]⟩)] } := by decide
+example : let n : Node := { v := 0, fields := [.bind 8 (.app ⟨3, [(0, 8), (4, 0)]⟩)] }
+    ((Node.applySlotmap (Node.weakShape n).1 (Node.weakShape n).2).map fun n' => (Node.weakShape n').1) ≠
+      some (Node.weakShape n).1 := by decide
 
 /-- **`from_syntax ∘ to_syntax = id`** for a variant with an operator string: fields of the kinds the variant
 declares (payloads reading back as themselves), and no earlier variant with the same operator string -/
